@@ -1245,4 +1245,135 @@ theorem normalize_render (c : Bytes) (cs : List Bytes) (hg : ∀ d ∈ c :: cs, 
     rw [finalTrim_inside d st hgd, ← hrev, rr_reverse]
     simp
 
+/-! ### requests without `..`: normalisation just drops empty and `.` pieces -/
+
+def keepPiece (c : Bytes) : Bool := c != [] && c != [46]
+
+theorem isSkip_eq_not_keep (c : Bytes) : isSkip c = !keepPiece c := by
+  unfold keepPiece
+  cases h : isSkip c with
+  | true => rcases (isSkip_iff c).mp h with e | e <;> simp [e]
+  | false =>
+    have : ¬ (c = [] ∨ c = [46]) := by rw [← isSkip_iff]; simp [h]
+    simp only [not_or] at this
+    simp [this.1, this.2]
+
+/-- the loop on pieces none of which is `..`, started after a separator -/
+theorem normLoop_noUp (pieces : List Bytes) (st : List Bytes) (hne : pieces ≠ [])
+    (hsf : ∀ c ∈ pieces, (47 : UInt8) ∉ c) (hnu : ∀ c ∈ pieces, c ≠ [46, 46]) :
+    normLoop (47 :: rr st) pieces = 47 :: rr ((pieces.filter keepPiece).reverse ++ st) ∨
+    (normLoop (47 :: rr st) pieces = rr ((pieces.filter keepPiece).reverse ++ st) ∧ pieces.filter keepPiece ≠ []) := by
+  induction pieces generalizing st with
+  | nil => exact absurd rfl hne
+  | cons c rest ih =>
+    have hup : isUp c = false := by
+      cases h : isUp c with
+      | false => rfl
+      | true => exact absurd ((isUp_iff c).mp h) (hnu c (by simp))
+    by_cases hk : keepPiece c = true
+    · have hgood : goodComp c = true :=
+        good_of_not_skip_up c (by rw [isSkip_eq_not_keep, hk]; rfl) hup (hsf c (by simp))
+      cases rest with
+      | nil =>
+        right
+        simp only [normLoop, List.filter_cons, hk, if_true, List.filter_nil, List.reverse_cons, List.reverse_nil,
+          List.nil_append, List.singleton_append]
+        rw [stepComp_good _ _ _ hgood]
+        simp [rr]
+      | cons c2 rest2 =>
+        rw [normLoop]
+        · rw [stepComp_good _ _ _ hgood]
+          simp only [Bool.false_eq_true, if_false]
+          rw [show ([47] ++ c.reverse ++ 47 :: rr st : Bytes) = 47 :: rr (c :: st) by simp [rr]]
+          have := ih (c :: st) (by simp) (fun e he => hsf e (List.mem_cons_of_mem _ he)) (fun e he => hnu e (List.mem_cons_of_mem _ he))
+          simp only [List.filter_cons (x := c), hk, if_true, List.reverse_cons, List.append_assoc, List.singleton_append]
+          rcases this with h | ⟨h, _⟩
+          · left; exact h
+          · right; exact ⟨h, by simp⟩
+        · simp
+    · have hskip : isSkip c = true := by rw [isSkip_eq_not_keep]; simp [hk]
+      have hstep : ∀ last, stepComp (47 :: rr st) c last = 47 :: rr st := by
+        intro last; unfold stepComp; simp [hskip]
+      cases rest with
+      | nil =>
+        left
+        simp only [normLoop, hstep, List.filter_cons, hk, Bool.false_eq_true, if_false, List.filter_nil, List.reverse_nil, List.nil_append]
+      | cons c2 rest2 =>
+        rw [normLoop]
+        · rw [hstep]
+          have := ih st (by simp) (fun e he => hsf e (List.mem_cons_of_mem _ he)) (fun e he => hnu e (List.mem_cons_of_mem _ he))
+          simp only [List.filter_cons (x := c), hk, Bool.false_eq_true, if_false]
+          exact this
+        · simp
+
+theorem finalTrim_slash (st : List Bytes) (hg : ∀ c ∈ st, goodComp c = true) :
+    finalTrim (47 :: rr st) = if st = [] then [47] else rr st := by
+  cases st with
+  | nil => simp [rr, finalTrim]
+  | cons d st' =>
+    cases hh : rr (d :: st') with
+    | nil => simp [rr] at hh
+    | cons a r => simp [finalTrim, gen_norm.2.2.2.2.2.2.2.2.2.2]
+
+/-- the part of the request the loop walks over: everything after the leading `/` (added if missing) -/
+def afterLead (p : Bytes) : Bytes :=
+  match p with
+  | 47 :: t => t
+  | p => p
+
+theorem normalize_eq' (p : Bytes) :
+    normalize p = (finalTrim (normLoop [47] (splitSlash (afterLead p)))).reverse := by
+  obtain ⟨h0, h1, _⟩ := gen_norm
+  unfold normalize
+  rw [h0, h1]
+  match p with
+  | [] => simp [splitSep_eq, afterLead]
+  | x :: t =>
+    by_cases hx : x = 47
+    · subst hx; simp [splitSep_eq, afterLead]
+    · have : afterLead (x :: t) = x :: t := by
+        unfold afterLead
+        split
+        · rename_i heq; simp at heq; exact absurd heq.1 hx
+        · rfl
+      simp [hx, splitSep_eq, this]
+
+theorem normalize_noUp (p : Bytes) (hnu : ∀ c ∈ splitSlash (afterLead p), c ≠ [46, 46]) :
+    comps (normalize p) = (splitSlash (afterLead p)).filter keepPiece := by
+  have hsf := splitSlash_pieces_slashFree (afterLead p)
+  have hne := splitSlash_ne_nil (afterLead p)
+  have hgood : ∀ c ∈ ((splitSlash (afterLead p)).filter keepPiece).reverse ++ [], goodComp c = true := by
+    intro c hc
+    simp only [List.append_nil, List.mem_reverse, List.mem_filter] at hc
+    have hup : isUp c = false := by
+      cases h : isUp c with
+      | false => rfl
+      | true => exact absurd ((isUp_iff c).mp h) (hnu c hc.1)
+    exact good_of_not_skip_up c (by rw [isSkip_eq_not_keep, hc.2]; rfl) hup (hsf c hc.1)
+  have hshape : finalTrim (normLoop [47] (splitSlash (afterLead p))) =
+      if ((splitSlash (afterLead p)).filter keepPiece).reverse ++ [] = [] then [47]
+      else rr (((splitSlash (afterLead p)).filter keepPiece).reverse ++ []) := by
+    have h := normLoop_noUp (splitSlash (afterLead p)) [] hne hsf hnu
+    simp only [rr] at h
+    rcases h with h | ⟨h, hne2⟩
+    · rw [h, finalTrim_slash _ hgood]
+    · rw [h]
+      have hne3 : ((splitSlash (afterLead p)).filter keepPiece).reverse ++ [] ≠ [] := by simpa using hne2
+      rw [if_neg hne3]
+      cases hrev : ((splitSlash (afterLead p)).filter keepPiece).reverse ++ [] with
+      | nil => exact absurd hrev hne3
+      | cons d st => exact finalTrim_inside d st (hgood d (by rw [hrev]; simp))
+  rw [normalize_eq', hshape]
+  cases hg : (splitSlash (afterLead p)).filter keepPiece with
+  | nil => simp [comps]
+  | cons c cs =>
+    have hne3 : (c :: cs).reverse ++ [] ≠ [] := by simp
+    rw [if_neg hne3, rr_reverse]
+    simp only [List.append_nil, List.reverse_reverse]
+    have hg2 : ∀ d ∈ c :: cs, goodComp d = true := by
+      intro d hd
+      apply hgood
+      rw [hg]; simpa [or_comm] using hd
+    exact comps_render c cs (good_ne_nil (hg2 c (by simp))) (fun d hd => good_slashFree (hg2 d hd))
+
 end Cppcms.C13
